@@ -2146,16 +2146,18 @@ void SVDlapack(matrix *m_, matrix *u, matrix *s, matrix *vt)
     return;
   }
 
+  /* economy-size factors: with mn = min(m, n), dgesdd returns mn singular values, u is m x mn and vt is mn x n */
+  int mn = (m < n) ? m : n;
   /* s are the eigenvectors singular values diagonal matrix*/
-  ResizeMatrix(s, n, n);
-  for(i = 0; i < m_->col; i++){
+  ResizeMatrix(s, mn, mn);
+  for(i = 0; i < mn; i++){
     s->data[i][i] = s_[i];
   }
   //conv2matrix(1, n, s_, 1, s);
   /* u is left singular vectors */
-  conv2matrix(m, n, u_, ldu, u);
+  conv2matrix(m, mn, u_, ldu, u);
   /*vt is the right singular vectors */
-  conv2matrix(m, n, vt_, ldvt, vt);
+  conv2matrix(mn, n, vt_, ldvt, vt);
   /* Free workspace */
   xfree(work);
   xfree(a);
